@@ -280,8 +280,8 @@ func execC04(t *testing.T, plan *h.Plan, trace bool) *h.Result {
 	res.Count("tasks", int64(rep.Tasks))
 	if trace {
 		res.Trace = evs
-		if len(res.Trace) > 300 {
-			res.Trace = res.Trace[len(res.Trace)-300:]
+		if len(res.Trace) > 3000 {
+			res.Trace = res.Trace[:3000]
 		}
 	}
 	viol := func(class, sig, f string, a ...interface{}) {
